@@ -190,11 +190,35 @@ def split_sim_traces(edges):
     return traces
 
 
+def build_abba(r):
+    steps = trace_steps(r)
+    c = cfg_consts("peers/PoolFineOrigLock.cfg")
+    return steps and {"name": "abba", "ttl": c["TTL"], "cleanup": c["CleanupThreshold"], "slots": c["slots"],
+                      "expect": "deadlock", "steps": steps}
+
+
+def build_early(r):
+    steps = trace_steps(r, pool_proj)
+    c = cfg_consts("peers/PoolAtomicOrigCount.cfg")
+    return steps and {"name": "early", "ttl": c["TTL"], "cleanup": c["CleanupThreshold"], "slots": c["slots"],
+                      "expect": "early", "steps": steps[1:]}
+
+
+def build_blacklisted(r):
+    steps = []
+    for _, st in r.trace[1:]:
+        p = plain(st)
+        steps.append({"a": p["last"], "t": {k: p[k] for k in ("pools", "nodes", "blocked", "blHashes", "initialHeight",
+                                                               "storeFrom", "head", "reqs")}})
+    return {"name": "blacklisted", "peers": MGR_CONSTS["peers1"], "hashes": MGR_CONSTS["chain"],
+            "enable_blacklisting": True, "steps": steps}
+
+
 def parallel(ctx, jobs):
     """jobs: {name: callable}; run concurrently (TLC runs are independent processes)"""
     from concurrent.futures import ThreadPoolExecutor
     out = {}
-    with ThreadPoolExecutor(max_workers=len(jobs)) as ex:
+    with ThreadPoolExecutor(max_workers=min(len(jobs), 6)) as ex:
         futs = {k: ex.submit(f) for k, f in jobs.items()}
         for k, f in futs.items():
             out[k] = f.result()
@@ -207,6 +231,47 @@ def warm_build(ctx):
     vlib.gen_go_mod()
     subprocess.run(["go", "test", "-tags", "verif", "-count=1", "-vet=off", "-run", "^$", "./drivers/peers"],
                    cwd=vlib.HARNESS, env=vlib.go_env(), stdout=subprocess.DEVNULL, stderr=subprocess.DEVNULL)
+
+
+def spec_sha(cfg):
+    import hashlib
+    h = hashlib.sha256()
+    d = os.path.join(vlib.VERIF, "spec", "peers")
+    for f in sorted(os.listdir(d)):
+        if f.endswith(".tla") and "Trace" not in f:
+            h.update(open(os.path.join(d, f), "rb").read())
+    h.update(open(os.path.join(vlib.VERIF, "spec", cfg), "rb").read())
+    return h.hexdigest()[:16]
+
+
+def witness(ctx, name, spec, cfg, expect, build, workers=1):
+    """Counterexample of a model variant WITHOUT a fix. It is a pure function of the specification, so it is kept in
+    spec/peers/witness/<name>.json together with the hash of its inputs and regenerated by TLC when the specification
+    changed (always in the thorough tier)."""
+    path = os.path.join(vlib.VERIF, "spec", "peers", "witness", name + ".json")
+    sha = spec_sha(cfg)
+    if ctx.quick and os.path.exists(path):
+        try:
+            w = json.load(open(path))
+            if w.get("sha") == sha:
+                ctx.log("witness %s: stored counterexample of %s (spec hash %s)" % (name, cfg, sha))
+                return w["scenario"]
+        except Exception:
+            pass
+    r = ctx.tlc(spec, cfg, must_pass=False, count=False, timeout=2400, workers=workers)
+    if r.violated not in expect:
+        ctx.inconclusive("the model variant %s did not produce the expected counterexample %s (violated=%s)" % (cfg, expect, r.violated))
+        return None
+    sc = build(r)
+    if sc is None:
+        ctx.inconclusive("could not convert the counterexample of %s" % cfg)
+        return None
+    try:
+        os.makedirs(os.path.dirname(path), exist_ok=True)
+        json.dump({"sha": sha, "cfg": cfg, "violated": r.violated, "scenario": sc}, open(path, "w"), indent=0)
+    except OSError:
+        pass
+    return sc
 
 
 MGR_CONSTS = {"peers1": ["p1"], "peers2": ["p1", "p2"], "chain": ["h1", "h2"], "first": 11}
@@ -230,16 +295,15 @@ def run(ctx):
     jobs = {
         # 1. the code as it is: fine-grained model, deadlock check ON, all safety invariants
         "fine": lambda: ctx.tlc(SPEC, fine_cfg, timeout=2400, coverage=not quick, workers=max(2, W // 2)),
-        # 2. model variant with callbacks under the queue mutex (tree before the deadlock fix): TLC must find the cycle
-        "origlock": lambda: ctx.tlc(SPEC, "peers/PoolFineOrigLock.cfg", must_pass=False, count=False, timeout=900, workers=2),
-        # 3. model variant without the cool-down counter: TLC must find NoEarlyReturn
-        "origcount": lambda: ctx.tlc(SPEC, "peers/PoolAtomicOrigCount.cfg", must_pass=False, count=False, timeout=900, workers=1),
+        # 2./3. model variants without the deadlock fix / without the cool-down counter: TLC's counterexamples
+        "origlock": lambda: witness(ctx, "abba", SPEC, "peers/PoolFineOrigLock.cfg", ("deadlock", "NoLockCycle"), build_abba, workers=2),
+        "origcount": lambda: witness(ctx, "early", SPEC, "peers/PoolAtomicOrigCount.cfg", ("NoEarlyReturn",), build_early),
         # 4. atomic-method state graph (printed edge by edge)
         "atomic": lambda: ctx.tlc(SPEC, atomic_cfg, timeout=2400, workers=2 if quick else 4),
         "atomicwake": lambda: ctx.tlc(SPEC, "peers/PoolAtomicWake.cfg", timeout=2400, workers=2),
         # 5. the manager as it is / without the black-list fix / simulated behaviours for the replay
         "mgr": lambda: ctx.tlc("peers/MCManager.tla", mgr_cfg, timeout=2400, workers=max(2, W // 4)),
-        "mgrorig": lambda: ctx.tlc("peers/MCManager.tla", "peers/ManagerOrig.cfg", must_pass=False, count=False, timeout=900, workers=1),
+        "mgrorig": lambda: witness(ctx, "blacklisted", "peers/MCManager.tla", "peers/ManagerOrig.cfg", ("BlacklistedNeverOffered",), build_blacklisted),
         "mgrsim": lambda: ctx.tlc("peers/MCManager.tla", "peers/ManagerSim.cfg", count=False, timeout=900, workers=1, deadlock=False,
                                   simulate="num=%d" % (120 if quick else 1500), depth=16, seed=ctx.seed),
         "build": lambda: warm_build(ctx),
@@ -252,27 +316,10 @@ def run(ctx):
     if not quick and R["fine"].coverage:
         ctx.require_coverage(R["fine"], ["LockPool", "LockQueue", "CooldownPush", "CooldownBody", "ReleaseScan", "CallbackBody", "Tick", "TryGetBody"])
 
-    r = R["origlock"]
-    if r.violated in ("deadlock", "NoLockCycle"):
-        steps = trace_steps(r)
-        c = cfg_consts("peers/PoolFineOrigLock.cfg")
-        if steps:
-            plan.setdefault("fine", []).append({"name": "abba", "ttl": c["TTL"], "cleanup": c["CleanupThreshold"],
-                                                "slots": c["slots"], "expect": "deadlock", "steps": steps})
-    if "fine" not in plan:
-        ctx.inconclusive("the model variant with callbacks under the queue mutex did not produce the expected deadlock "
-                         "counterexample (violated=%s)" % r.violated)
-
-    r = R["origcount"]
-    if r.violated == "NoEarlyReturn":
-        steps = trace_steps(r, pool_proj)
-        c = cfg_consts("peers/PoolAtomicOrigCount.cfg")
-        if steps:
-            plan.setdefault("witness", []).append({"name": "early", "ttl": c["TTL"], "cleanup": c["CleanupThreshold"],
-                                                   "slots": c["slots"], "expect": "early", "steps": steps[1:]})
-    if "witness" not in plan:
-        ctx.inconclusive("the model variant without the cool-down counter did not produce the expected NoEarlyReturn "
-                         "counterexample (violated=%s)" % r.violated)
+    if R["origlock"]:
+        plan["fine"] = [R["origlock"]]
+    if R["origcount"]:
+        plan["witness"] = [R["origcount"]]
 
     for key, cfg, name, npaths in (("atomic", atomic_cfg, "pool", 300 if quick else 8000),
                                    ("atomicwake", "peers/PoolAtomicWake.cfg", "pool2", 200 if quick else 3000)):
@@ -287,18 +334,8 @@ def run(ctx):
         ctx.cover(pool_graph_edges=g.n_edges, pool_graph_edges_replayed=covered, pool_graph_nodes=len(g.nodes))
         ctx.log("atomic graph %s: %d nodes, %d edges; %d paths cover %d edges" % (cfg, len(g.nodes), g.n_edges, len(paths), covered))
 
-    r = R["mgrorig"]
-    if r.violated == "BlacklistedNeverOffered":
-        steps = []
-        for _, st in r.trace[1:]:
-            p = plain(st)
-            steps.append({"a": p["last"], "t": {k: p[k] for k in ("pools", "nodes", "blocked", "blHashes", "initialHeight",
-                                                                   "storeFrom", "head", "reqs")}})
-        plan["mwitness"] = [{"name": "blacklisted", "peers": MGR_CONSTS["peers1"], "hashes": MGR_CONSTS["chain"],
-                             "enable_blacklisting": True, "steps": steps}]
-    else:
-        ctx.inconclusive("the manager model variant without the black-list fix did not produce the expected counterexample "
-                         "(violated=%s)" % r.violated)
+    if R["mgrorig"]:
+        plan["mwitness"] = [R["mgrorig"]]
 
     r = R["mgrsim"]
     sims = split_sim_traces(r.printed.get("EDGE", []))
